@@ -91,6 +91,8 @@ var extraInputs = []string{
 	"[[ a == @() ]]\n",
 	"case x in @()) echo e;; esac\n",
 	"echo ?() *() !()\n",
+	// reserved words and operators split by a line continuation
+	"for i i\\\nn a b; do echo $i; done\n", "for i in a b; d\\\no echo $i; done\n", "case a i\\\nn a) echo;; esac\n", "if a; the\\\nn b; fi\n", "while a; d\\\no b; don\\\ne\n", "select i i\\\nn a; do b; done\n", "[[ a ]\\\n]\n", "a[1]+\\\n=2\n", "echo a &\\\n& echo b\n", "echo a |\\\n| echo b\n", "f\\\noo() { :; }\n", "echo $\\\n((1))\n", "echo $((1)\\\n)\n",
 	// inputs that end in a word the lexer treats specially, and inputs that
 	// begin with a construct whose parsing looks back at the previous token
 	"echo function\n", "a=1; export function\n", "function\n", "echo function", "echo in\n", "echo do\n", "echo {\n", "echo time\n", "echo select\n", "echo coproc\n", "echo [[\n", "echo ]]\n", "echo esac\n", "echo then\n", "echo !\n",
